@@ -1265,6 +1265,52 @@ def extra_checks(c, rebound, clib, d, syss, ref):
         dimx("dt_longer_than_period")
         if not e < 10.0:
             c.violation("%s:dt-longer-than-period" % integ, "%s with dt = 7 (> inner period): particle at distance %r after 3 steps" % (integ, e), dict(integrator=integ, dt=7.0))
+    # ---------------- TRACE: the three pericentre prescriptions on steps that ARE flagged as pericentre approaches (the flag is read
+    #                  from ri_trace after every step); the hybrid scheme has no clean order there, the oracle is the accuracy class
+    #                  measured on the clean tree (<= 1.1e-3 for dt = 0.16 .. 0.02) and agreement between the prescriptions
+    def peri_setup():
+        sim = rebound.Simulation()
+        sim.add(m=1.0)
+        sim.add(m=3e-4, a=1.0, e=0.9, inc=0.3, omega=0.4, f=2.5)       # q = 0.1
+        sim.add(m=1e-3, a=5.2, e=0.05, f=1.0)
+        sim.move_to_com()
+        return sim
+    Tp = 3.3 * 2 * math.pi
+    job = dict(kind="nbody", G=1.0, m=[1.0, 3e-4, 1e-3], active=3, tp_type=0, y0=state_of(peri_setup()), times=[Tp])
+    p = subprocess.run(["python3-vt", os.path.join(ROOT, "ref", "C01_reference.py")], input=json.dumps([job]), capture_output=True, text=True, timeout=600)
+    if p.returncode != 0:
+        raise Infra("reference (pericentre system) failed: " + p.stderr[-500:])
+    pj = json.loads(p.stdout)[0]
+    if pj["err_est"] > 1e-8:
+        raise Infra("reference of the pericentre system not accurate enough: %.1e" % pj["err_est"])
+    prs = pj["states"][repr(Tp)]
+    perr = {}
+    for pm, pname in ((0, "PARTIAL_BS"), (1, "FULL_BS"), (2, "FULL_IAS15")):
+        for dt in (0.16, 0.08, 0.04):
+            sim = peri_setup()
+            sim.integrator = "trace"
+            sim.ri_trace.peri_mode = pm
+            n = int(round(Tp / dt))
+            sim.dt = Tp / n
+            flagged = 0
+            for _ in range(n):
+                sim.steps(1)
+                flagged += 1 if sim.ri_trace._current_C else 0
+            e = pos_err(state_of(sim), prs, 3)
+            perr[(pm, dt)] = (e, flagged)
+            c.count(("trace-peri", pname, dt))
+            dimx("trace_peri_mode_on_flagged_pericentre_steps", flagged)
+            if flagged == 0:
+                c.broken.append("TRACE pericentre check: the pericentre switch never fired (peri_mode %s, dt %g): the dimension is not exercised" % (pname, dt))
+            if not e <= 4e-3:
+                c.violation("trace:pericentre-step:%s" % pname, "TRACE peri_mode=%s, dt=%g, %d steps flagged as pericentre approach: position error %.2e (class bound 4e-3)" % (pname, dt, flagged, e),
+                            dict(system="m=1; m=3e-4 a=1 e=0.9 inc=0.3 omega=0.4 f=2.5; m=1e-3 a=5.2 e=0.05 f=1", peri_mode=pname, dt=dt, t=Tp, flagged_steps=flagged, error=e))
+    for dt in (0.16, 0.08, 0.04):
+        e0, eF = perr[(0, dt)][0], perr[(2, dt)][0]
+        if not e0 <= 3 * eF + 1e-5:
+            c.violation("trace:pericentre-step:PARTIAL_BS-vs-FULL_IAS15", "TRACE dt=%g: PARTIAL_BS error %.2e is much larger than FULL_IAS15 %.2e on the same flagged steps" % (dt, e0, eF),
+                        dict(dt=dt, partial_bs=e0, full_ias15=eF, t=Tp))
+    res["trace_pericentre_steps_error_flagged"] = {"%s/dt=%g" % (["PARTIAL_BS", "FULL_BS", "FULL_IAS15"][k[0]], k[1]): (float("%.2e" % v[0]), v[1]) for k, v in perr.items()}
     # ---------------- net external force on the centre of mass: uniform field, exact solution x += g t^2/2
     sd = bysys["two_planets"]
     N = len(sd["bodies"])
@@ -1362,7 +1408,8 @@ print(json.dumps(out))
                   "keep_unsynchronized_with_explicit_synchronize", "nondefault_integrator_options", "dt_negative", "direction_reversal_between_calls",
                   "integrate_split_into_calls", "exact_finish_time_1", "dt_longer_than_period", "additional_force_uniform_field", "callbacks_installed",
                   "variational_particles_present", "integrator_switch_midrun", "restore_midrun_copy", "restore_midrun_archive",
-                  "moving_centre_of_mass", "com_offset_and_boost", "hyperbolic_member"]
+                  "moving_centre_of_mass", "com_offset_and_boost", "hyperbolic_member",
+                  "trace_peri_mode_on_flagged_pericentre_steps"]
     for dn in applicable:
         dimc.setdefault(dn, 0)
         if dimc[dn] == 0 and not getattr(c, "_focus", None):
